@@ -111,6 +111,9 @@ type vfMqResID struct {
 	// the current persistent session saw an acknowledged UNSUBSCRIBE list with a malformed filter
 	// next to filters it held
 	badUnsub bool
+	// a connection of the persistent session with subscriptions died through a broker write failure
+	// and is still registered (its read loop has not ended)
+	zombieWithSubs bool
 	// held filters of an UNSUBSCRIBE the broker did not acknowledge (refused: still live)
 	refused map[string]bool
 }
@@ -125,6 +128,92 @@ type vfMqResRun struct {
 	nt   bool
 	// abandon: a listed known finding was hit, the script stops
 	abandon bool
+	profile string
+	// profile "resume": every connection's broker side can be made to fail its writes
+	faults map[*vfMqClient]*vfMqFaultConn
+	// stalled: the session store does not complete writes (as etcd under load): session records
+	// queue up in the broker until the stall ends (before the next CONNECT at the latest)
+	stalled     bool
+	stallWrites map[string]int // subscription changes per client id since the stall began
+	stallID     *vfMqResID     // the id whose step began the stall: the script stays with it
+}
+
+// stall: from now on puts block in the store; the broker keeps working (session writes queue up).
+func (r *vfMqResRun) stall(d *vfMqResID) {
+	r.stallID = d
+	r.log("store-stalls")
+	r.vf.Class("step:store-stalls")
+	r.rig.store.hold()
+	r.stalled = true
+	r.stallWrites = map[string]int{}
+}
+
+// unstall: the store completes the writes again; returns when everything queued was handled.
+func (r *vfMqResRun) unstall() {
+	if !r.stalled {
+		return
+	}
+	r.log("store-catches-up")
+	r.stalled = false
+	r.stallWrites = nil
+	if err := r.rig.Quiesce(); err != nil {
+		r.inconclusive("quiesce after store stall", err)
+	}
+}
+
+// writeFailure: the peer of the live connection vanished: the broker's next write to it fails
+// (PINGRESP to the client's PINGREQ, or a message for one of its filters). The writer runs the
+// end-of-connection cleanup while the reader still blocks on the socket, so the dead connection
+// stays registered until its read loop notices (end-pending); the client may reconnect before.
+func (r *vfMqResRun) writeFailure(d *vfMqResID) {
+	c := d.live
+	fc := r.faults[c]
+	variant, topic := "ping", ""
+	if d.sess != nil && rapid.Bool().Draw(r.rt, "writeFailureNoticedByPublish") {
+		for _, t := range vfMqResTopics {
+			for f := range d.sess.topics {
+				if topic == "" && vfMqMatch(f, t) {
+					variant, topic = "publish", t
+				}
+			}
+		}
+	}
+	r.log("%s: write-failure(noticed through %s)", d.cid, variant)
+	r.vf.Class("step:write-failure-" + variant)
+	bc := r.rig.registered(d.cid)
+	fc.FailWrites()
+	if variant == "ping" {
+		if err := c.write(packets.NewControlPacket(packets.Pingreq)); err != nil {
+			r.liveGone(d, "write-failure", err)
+			return
+		}
+	} else {
+		r.seq++
+		if code := r.rig.Publish(topic, 0, fmt.Sprintf("lost%d", r.seq)); code != 200 {
+			r.inconclusive("http publish", fmt.Errorf("status %d", code))
+		}
+		if err := r.rig.FanoutBarrier(); err != nil {
+			r.inconclusive("fan-out barrier", err)
+		}
+	}
+	deadline := time.Now().Add(vfMqWait)
+	for bc != nil && !bc.disconnected() {
+		if time.Now().After(deadline) {
+			r.inconclusive("write failure", fmt.Errorf("broker did not give up %s after its write failed", c.Label))
+		}
+		time.Sleep(200 * time.Microsecond)
+	}
+	hadSub := d.sess != nil && len(d.sess.topics) > 0
+	if hadSub && d.sess != nil && !d.sess.clean {
+		d.zombieWithSubs = true
+	}
+	// its filters left the tree with the writer's cleanup: nothing of it is routed any more
+	d.pending = append(d.pending, &vfMqResPending{c: c, why: "write-failure", hadSub: hadSub, topics: map[string]byte{}})
+	d.live = nil
+	d.lastEnd = "write-failure, dead connection still registered"
+	if d.sess != nil && d.sess.clean {
+		d.sess = nil
+	}
 }
 
 func (r *vfMqResRun) log(format string, args ...interface{}) {
@@ -213,7 +302,20 @@ func (r *vfMqResRun) connect(d *vfMqResID, clean bool) {
 	if takeover {
 		oldBroker = r.rig.registered(d.cid)
 	}
-	c, err := r.rig.Dial(label)
+	r.unstall() // a CONNECT reads the stored record: the store has caught up by then
+	var c *vfMqClient
+	var err error
+	if r.profile == "resume" {
+		var fc *vfMqFaultConn
+		if c, fc, err = r.rig.DialFault(label); err == nil {
+			if r.faults == nil {
+				r.faults = map[*vfMqClient]*vfMqFaultConn{}
+			}
+			r.faults[c] = fc
+		}
+	} else {
+		c, err = r.rig.Dial(label)
+	}
 	if err != nil {
 		r.inconclusive("dial", err)
 	}
@@ -271,6 +373,11 @@ func (r *vfMqResRun) connect(d *vfMqResID, clean bool) {
 		if len(d.dropped) > 0 {
 			r.vf.Class("session-resumed-after-unsubscribe")
 		}
+		if d.zombieWithSubs && len(d.pending) > 0 && len(d.sess.topics) > 0 {
+			r.nt = true
+			r.vf.Class("nontrivial:persistent-session-resumed-while-its-write-failed-connection-is-still-registered")
+		}
+		d.zombieWithSubs = false
 		if d.badUnsub {
 			r.nt = true
 			r.vf.Class("nontrivial:persistent-session-resumed-after-unsubscribe-list-with-malformed-and-held-filters")
@@ -365,6 +472,9 @@ func (r *vfMqResRun) subscribe(d *vfMqResID) {
 	if err := d.live.Subscribe(fs, qs); err != nil {
 		r.liveGone(d, "subscribe", err)
 		return
+	}
+	if r.stalled {
+		r.stallWrites[d.cid]++
 	}
 	for i, f := range fs {
 		d.sess.topics[f] = qs[i]
@@ -517,6 +627,9 @@ func (r *vfMqResRun) unsubscribe(d *vfMqResID) {
 			d.badUnsub = true
 		}
 	}
+	if r.stalled {
+		r.stallWrites[d.cid]++
+	}
 	for _, f := range fs {
 		delete(d.refused, f)
 		if _, ok := d.sess.topics[f]; ok {
@@ -553,6 +666,11 @@ func (r *vfMqResRun) endLive(d *vfMqResID) {
 	how := rapid.SampledFrom([]string{"disconnect", "halfclose", "kick", "kick"}).Draw(r.rt, "endHow")
 	r.log("%s: end(%s)", d.cid, how)
 	r.vf.Class("step:end-" + how)
+	if r.stalled && r.stallWrites[d.cid] >= 2 && d.sess != nil && !d.sess.clean {
+		// the record of the last change is queued behind an earlier one when the connection ends
+		r.nt = true
+		r.vf.Class("nontrivial:persistent-connection-ended-with-session-records-still-queued")
+	}
 	c := d.live
 	var err error
 	switch how {
@@ -659,7 +777,12 @@ func (r *vfMqResRun) endPending(d *vfMqResID) {
 
 // check compares trie and delivery with the reference.
 func (r *vfMqResRun) check() {
-	if err := r.rig.Quiesce(); err != nil {
+	if r.stalled {
+		// routing does not depend on the store: compare now, the store catches up later
+		if _, err := r.rig.FlushWatch(); err != nil {
+			r.inconclusive("flush watch", err)
+		}
+	} else if err := r.rig.Quiesce(); err != nil {
 		r.inconclusive("quiesce", err)
 	}
 	r.sweep()
@@ -726,6 +849,11 @@ func (r *vfMqResRun) check() {
 				}
 			case !got && want[d.cid]:
 				lkey := "live-subscription-not-routed"
+				for _, p := range d.pending {
+					if p.why == "write-failure" {
+						lkey = "resumed-session-not-routed-while-its-write-failed-connection-is-still-registered"
+					}
+				}
 				for f := range d.refused {
 					if vfMqMatch(f, t) {
 						lkey = "unacknowledged-unsubscribe-removed-filter-from-routing"
@@ -850,7 +978,8 @@ func vfMqResidueCheckProfile(t *testing.T, property, profile string) {
 			rt.Fatalf("VF-INCONCLUSIVE start broker: %v", err)
 		}
 		defer rig.Close()
-		r := &vfMqResRun{rt: rt, vf: vf, rig: rig}
+		r := &vfMqResRun{rt: rt, vf: vf, rig: rig, profile: profile}
+		defer func() { rig.store.release() }()
 		nIDs := rapid.IntRange(2, 3).Draw(rt, "nIDs")
 		if profile == "resume" {
 			nIDs = rapid.IntRange(1, 2).Draw(rt, "nIDsResume") // fewer ids: longer per-session histories
@@ -882,14 +1011,21 @@ func vfMqResidueCheckProfile(t *testing.T, property, profile string) {
 			if len(busy) > 0 && rapid.IntRange(0, 2).Draw(rt, "stayWithBusyID") > 0 {
 				d = busy[rapid.IntRange(0, len(busy)-1).Draw(rt, "busyID")]
 			}
+			if r.stalled && r.stallID != nil && r.stallID.live != nil {
+				d = r.stallID // a stall is short: what matters is what this connection does meanwhile
+			}
 			var ops []string
 			if profile == "resume" {
-				if d.live == nil {
+				if r.stalled && d.live != nil {
+					ops = []string{"sub", "unsub", "unsub", "end", "end"}
+				} else if d.live == nil {
 					ops = []string{"connect"}
 				} else {
-					ops = []string{"sub", "sub", "unsub", "unsub", "unsub", "end", "end"}
+					ops = []string{"sub", "sub", "unsub", "unsub", "unsub", "end", "end", "write-failure"}
 					if d.sess == nil || len(d.sess.topics) == 0 {
 						ops = []string{"sub", "sub", "sub", "sub", "unsub", "end"} // nothing held yet: mostly subscribe
+					} else if !r.stalled {
+						ops = append(ops, "store-stalls")
 					}
 				}
 			} else if d.live == nil {
@@ -926,9 +1062,14 @@ func vfMqResidueCheckProfile(t *testing.T, property, profile string) {
 				r.adminDelete(d)
 			case "end-pending":
 				r.endPending(d)
+			case "write-failure":
+				r.writeFailure(d)
+			case "store-stalls":
+				r.stall(d)
 			}
 			r.check()
 		}
+		r.unstall()
 		// every connection ends eventually; then nothing of an id without live connection may be routed
 		for _, d := range r.ids {
 			for len(d.pending) > 0 && !r.abandon {
